@@ -24,7 +24,9 @@ Print Assumptions C14_decode_total.
 (* 2. RecursionError (fuel exhausted) is only possible when the frames available are fewer than
       |bs| + 3: every nesting level costs two frames and at least two bytes.  With Python's
       recursion limit L and d frames in use at the call, inputs of at most L - d - 3 bytes never
-      hit it. *)
+      hit it (L - d <= 1400, e.g. the default L = 1000: beyond that CPython 3.12's separate C-level
+      recursion limit, about 747 nested class instances, raises the same RecursionError first —
+      see frames_available in Model/SerCost.v and the harness). *)
 Theorem C14_recursion_needs_long_input : forall fc pk reg fuel bs,
   len bs + 3 <= Z.of_nat fuel ->
   decode fc pk reg fuel bs = SErr (SE ERecursion) -> exists x, pk x = Some (SE ERecursion).
